@@ -37,6 +37,9 @@ func (v *Verifier) VerifyFunc(f *ssa.Function, fc *FuncContract) (res *FuncResul
 				panic(r)
 			}
 		}
+		if len(res.Undecided) == 0 && fc != nil && !fc.NoVerify && f.Blocks != nil {
+			res.Undecided = append(res.Undecided, c.unmatchedAtCall(f, fc)...)
+		}
 		c.nameObligations()
 		res.Obls = c.oblOrder
 		res.Paths = c.paths
@@ -491,4 +494,26 @@ func definesStructurallyOK(f *ssa.Function, d *ECall) bool {
 		}
 	}
 	return true
+}
+
+// unmatchedAtCall: an `at call` clause reads "whenever this call happens"; when the call no longer exists the clause
+// holds vacuously, but the contract is out of date - reported as undecided (not as a violation), so it shows in the
+// evidence instead of passing silently.
+func (c *Ctx) unmatchedAtCall(f *ssa.Function, fc *FuncContract) []string {
+	var out []string
+	for _, cl := range fc.Clauses {
+		if cl.Kind != "atcall" {
+			continue
+		}
+		found := false
+		for _, o := range c.oblOrder {
+			if o.Kind == "atcall" && o.Detail == cl.Site && o.Src == cl.Src {
+				found = true
+			}
+		}
+		if !found {
+			out = append(out, fmt.Sprintf("at call %s: no explored path reaches such a call (clause #%s is vacuous; contract out of date?)", cl.Site, cl.Label))
+		}
+	}
+	return out
 }
